@@ -7,7 +7,7 @@ LEVEL_TEXT = ("Coq theorems over the SMTP session model for every configuration 
               "sequencing (MAIL needs a greeting, RCPT an open transaction, DATA an accepted recipient), envelope reset on "
               "RSET/EHLO/end of DATA, exactly one well-formed reply group per line, no reachable panic, progress; the cut theorem over byte streams (cut_prefix: the deliveries of every byte "
               "prefix are a prefix of the deliveries of the whole stream; cut_trace_prefix / cut_delivers_exactly_the_shared_part: the transcript of the cut connection is a part shared "
-              "with the whole stream's transcript followed by a tail that delivers nothing - both bounds; cut_store_is_entitled; truncated_is_none); when the server's writes fail "
+              "with the whole stream's transcript followed by a tail of at most two steps that delivers nothing - both bounds; cut_store_is_entitled; truncated_is_none); when the server's writes fail "
               "(write_failure_at_most_one_unseen_block): of the iterations that ran all but the last had every reply line delivered to the client, so at most one "
               "message is stored without the client having seen its 250; tied to the code by byte-level correspondence of random/garbage "
               "dialogues and of valid dialogues cut after every byte, with the sequencing/reply-shape specifications and the C01 "
@@ -45,6 +45,5 @@ TRUSTED = ["net.ParseIP verdicts and enmime header facts (From/To/Subject, parse
            "an in-memory half-closeable connection (go/smtpd/bufconn.go) stands for TCP: the client writes, half-closes (or pauses / stays silent / breaks as scripted) and reads every reply"]
 ASSUMPTIONS = ["store operations do not fail"]
 NOT_PROVED = ["STARTTLS together with pauses / failing writes (run_net, run_net_w have no TLS switch)",
-              "plaintext behind STARTTLS beyond the session's 4 KiB read buffer: the session ends in the handshake (outside the model)",
-              "a bound on the tail of cut_trace_prefix (the step or two in which the session notices the cut)"]
+              "plaintext behind STARTTLS beyond the session's 4 KiB read buffer: the session ends in the handshake (outside the model)"]
 EXEC_TIMEOUT = {"quick": 900, "thorough": 14400}
